@@ -555,9 +555,11 @@ func successEdgesOfCall(fn *ssa.Function, call ssa.Instruction) func(*ssa.BasicB
 }
 
 // atomEdges: edges of fn on which an atom with one of the given canonical strings holds —
-// directly, or because the edge is the "true" edge of a same-module boolean helper (resp. the
-// success edge of an error-returning helper) all of whose positive returns are dominated by
-// that atom (one level of helper inlining, parameters substituted).
+// directly, or because the edge is the true (false) edge of a same-module boolean helper (resp.
+// the success edge of an error-returning helper) every positive (negative) return of which is
+// dominated by one of the wanted atoms (one level of helper inlining, parameters substituted).
+// The per-return formulation makes the false edge of `return a && !b` establish the
+// disjunction {!a, b}.
 func atomEdges(fn *ssa.Function, R *Renderer, want ...string) func(*ssa.BasicBlock, int) bool {
 	direct := atomEdgesDirect(fn, R, want...)
 	ws := map[string]bool{}
@@ -581,45 +583,67 @@ func atomEdges(fn *ssa.Function, R *Renderer, want ...string) func(*ssa.BasicBlo
 				if h == nil || h.Blocks == nil || h == fn || !isJivaFn(h) {
 					continue
 				}
-				facts := helperFacts(h)
-				if len(facts) == 0 {
+				pos, neg := helperSiteFacts(h)
+				if len(pos) == 0 && len(neg) == 0 {
 					continue
 				}
 				args := callArgs(R, cl)
-				hit := false
-				for _, f := range facts {
-					if ws[substParams(f, args)] {
-						hit = true
+				covers := func(sites [][]string) bool {
+					if len(sites) == 0 {
+						return false
 					}
+					for _, fs := range sites {
+						hit := false
+						for _, f := range fs {
+							if ws[substParams(f, args)] {
+								hit = true
+								break
+							}
+						}
+						if !hit {
+							return false
+						}
+					}
+					return true
 				}
-				if !hit {
+				posOK, negOK := covers(pos), covers(neg)
+				if !posOK && !negOK {
 					continue
 				}
-				res := h.Signature.Results()
-				if res.Len() == 1 && isBoolType(res.At(0).Type()) {
-					// edges of branches on this call's value
+				if bi := boolResultIndex(h); bi >= 0 {
+					// edges of branches on this call's (boolean) value
 					for _, bb := range fn.Blocks {
 						iff, ok := bb.Instrs[len(bb.Instrs)-1].(*ssa.If)
 						if !ok {
 							continue
 						}
-						cond, neg := iff.Cond, false
+						cond, negd := iff.Cond, false
 						for {
 							if u, ok := cond.(*ssa.UnOp); ok && u.Op == token.NOT {
-								cond, neg = u.X, !neg
+								cond, negd = u.X, !negd
 								continue
 							}
 							break
 						}
+						if ex, ok := cond.(*ssa.Extract); ok && ex.Tuple == ssa.Value(cl) && ex.Index == bi {
+							cond = cl
+						} else if h.Signature.Results().Len() != 1 {
+							continue
+						}
 						if cond == ssa.Value(cl) {
-							if neg {
-								set[ek{bb, 1}] = true
-							} else {
-								set[ek{bb, 0}] = true
+							tk, fk := 0, 1
+							if negd {
+								tk, fk = 1, 0
+							}
+							if posOK {
+								set[ek{bb, tk}] = true
+							}
+							if negOK {
+								set[ek{bb, fk}] = true
 							}
 						}
 					}
-				} else if errResultIndex(h) >= 0 {
+				} else if errResultIndex(h) >= 0 && posOK {
 					succ = append(succ, successEdgesOfCall(fn, cl))
 				}
 			}
@@ -638,6 +662,17 @@ func atomEdges(fn *ssa.Function, R *Renderer, want ...string) func(*ssa.BasicBlo
 	}
 }
 
+// boolResultIndex: index of the first boolean result of h, -1 if none.
+func boolResultIndex(h *ssa.Function) int {
+	res := h.Signature.Results()
+	for i := 0; i < res.Len(); i++ {
+		if isBoolType(res.At(i).Type()) {
+			return i
+		}
+	}
+	return -1
+}
+
 func isBoolType(t types.Type) bool {
 	b, ok := t.Underlying().(*types.Basic)
 	return ok && b.Info()&types.IsBoolean != 0
@@ -653,26 +688,57 @@ func isJivaFn(f *ssa.Function) bool {
 	return false
 }
 
+type siteFacts struct{ pos, neg [][]string }
+
 var (
-	helperFactsMemo = map[*ssa.Function][]string{}
+	helperFactsMemo = map[*ssa.Function]*siteFacts{}
 	inHelperFacts   bool
 )
 
 // helperFacts: atoms (over h's parameters) that hold whenever h returns true (boolean helper)
 // or a nil error (fallible helper).
 func helperFacts(h *ssa.Function) []string {
+	pos, _ := helperSiteFacts(h)
+	var out []string
+	for i, fs := range pos {
+		if i == 0 {
+			out = append(out, fs...)
+			continue
+		}
+		m := map[string]bool{}
+		for _, f := range fs {
+			m[f] = true
+		}
+		var keep []string
+		for _, a := range out {
+			if m[a] {
+				keep = append(keep, a)
+			}
+		}
+		out = keep
+	}
+	sort.Strings(out)
+	return out
+}
+
+// helperSiteFacts: for every positive return site of h (true / nil error) and every negative
+// one (false; boolean helpers only), the atoms over h's parameters that dominate it.
+func helperSiteFacts(h *ssa.Function) (pos, neg [][]string) {
 	if f, ok := helperFactsMemo[h]; ok {
-		return f
+		if f == nil {
+			return nil, nil
+		}
+		return f.pos, f.neg
 	}
 	helperFactsMemo[h] = nil
 	if len(h.Blocks) == 0 || len(h.Blocks) > 40 {
-		return nil
+		return nil, nil
 	}
-	res := h.Signature.Results()
-	isBool := res.Len() == 1 && isBoolType(res.At(0).Type())
+	bi := boolResultIndex(h)
+	isBool := bi >= 0
 	ei := errResultIndex(h)
 	if !isBool && ei < 0 {
-		return nil
+		return nil, nil
 	}
 	prev := inHelperFacts
 	inHelperFacts = true
@@ -684,11 +750,12 @@ func helperFacts(h *ssa.Function) []string {
 	}
 	type site struct {
 		at    ssa.Instruction
-		extra string
+		extra []string
+		neg   bool
 	}
 	var sites []site
 	for _, r := range Returns(h) {
-		idx := 0
+		idx := bi
 		if !isBool {
 			idx = ei
 		}
@@ -696,43 +763,55 @@ func helperFacts(h *ssa.Function) []string {
 			continue
 		}
 		v := strip(r.Results[idx])
-		addVal := func(val ssa.Value, at ssa.Instruction) {
+		addVal := func(val ssa.Value, at ssa.Instruction, extra []string) {
 			if isBool {
 				if c, ok := val.(*ssa.Const); ok {
 					if c.Value != nil && c.Value.String() == "true" {
-						sites = append(sites, site{at, ""})
+						sites = append(sites, site{at, extra, false})
+					} else {
+						sites = append(sites, site{at, extra, true})
 					}
 					return
 				}
-				sites = append(sites, site{at, R.CondAtom(val).String()})
+				a := R.CondAtom(val)
+				sites = append(sites, site{at, append(append([]string{}, extra...), a.String()), false})
+				sites = append(sites, site{at, append(append([]string{}, extra...), a.Neg().String()), true})
 				return
 			}
 			if isNilConst(val) {
-				sites = append(sites, site{at, ""})
+				sites = append(sites, site{at, extra, false})
 				return
 			}
 			if provablyNonNilError(val) {
 				return
 			}
-			sites = append(sites, site{at, isNilAtom(R.V(val))})
+			sites = append(sites, site{at, append(append([]string{}, extra...), isNilAtom(R.V(val))), false})
 		}
 		if p, ok := v.(*ssa.Phi); ok {
 			for _, e := range allPhiEdges(p) {
-				addVal(strip(e.val), e.from.Instrs[len(e.from.Instrs)-1])
+				var extra []string
+				last := e.from.Instrs[len(e.from.Instrs)-1]
+				if iff, ok := last.(*ssa.If); ok && e.to != nil {
+					a := R.CondAtom(iff.Cond)
+					if e.from.Succs[0] == e.to && e.from.Succs[1] != e.to {
+						extra = append(extra, a.String())
+					} else if e.from.Succs[1] == e.to && e.from.Succs[0] != e.to {
+						extra = append(extra, a.Neg().String())
+					}
+				}
+				addVal(strip(e.val), last, extra)
 			}
 		} else {
-			addVal(v, r)
+			addVal(v, r, nil)
 		}
 	}
 	if len(sites) == 0 {
-		return nil
+		return nil, nil
 	}
-	var out []string
-	first := true
 	for _, s := range sites {
 		fs := map[string]bool{}
-		if s.extra != "" {
-			fs[s.extra] = true
+		for _, e := range s.extra {
+			fs[e] = true
 		}
 		for a := range cands {
 			at := s.at
@@ -741,24 +820,19 @@ func helperFacts(h *ssa.Function) []string {
 				fs[a] = true
 			}
 		}
-		if first {
-			for a := range fs {
-				out = append(out, a)
-			}
-			first = false
+		var l []string
+		for a := range fs {
+			l = append(l, a)
+		}
+		sort.Strings(l)
+		if s.neg {
+			neg = append(neg, l)
 		} else {
-			var keep []string
-			for _, a := range out {
-				if fs[a] {
-					keep = append(keep, a)
-				}
-			}
-			out = keep
+			pos = append(pos, l)
 		}
 	}
-	sort.Strings(out)
-	helperFactsMemo[h] = out
-	return out
+	helperFactsMemo[h] = &siteFacts{pos, neg}
+	return pos, neg
 }
 
 func atomEdgesDirect(fn *ssa.Function, R *Renderer, want ...string) func(*ssa.BasicBlock, int) bool {
